@@ -178,9 +178,9 @@ def run(tier, seed):
     payloads = []
     for i in range(NCPU):
         payloads.append({"seed": seed, "shard": i, "n": n // NCPU, "bin": bins["dbg"], "kind": "dbg", "matrix": pairs[i::NCPU]})
-    if tier == "thorough":
-        for i in range(NCPU):
-            payloads.append({"seed": seed, "shard": 100 + i, "n": n // NCPU // 4, "bin": bins["rel"], "kind": "rel", "matrix": []})
+    # the release build (wrapping arithmetic, no debug assertions) sees a quarter of the random workload in both tiers
+    for i in range(NCPU):
+        payloads.append({"seed": seed, "shard": 100 + i, "n": n // NCPU // 4, "bin": bins["rel"], "kind": "rel", "matrix": []})
     acc = run_shards(shard, payloads)
     return finish(PID, tier, seed, "exploration", acc, RULE, t0,
                   assumptions=["exponent vectors and unit ids come from the frozen reference table (monitors/core/units_ref.py)",
